@@ -20,6 +20,13 @@ Tie to the source (`yastn/tn/mps/_mps_obc.py:245-497`):
       norm of the discarded tail of the dense spectrum.  Weights are compared with an ABSOLUTE tolerance of 1e-12 and
       the generator produces states a/|a| + eps*b/|b| (eps = 1e-9.5 … 1e-2) truncated back to the bond dimension of a,
       so that small truncation errors (1e-10 … 1e-3) must be reported with the accuracy the dense reference resolves;
+      widened exploration: (a) ~22% of all states carry one site tensor scaled by 1e-2 … 1e-20 (or the inverse), mostly
+      compensated in another site tensor or in the overall number, so that gauge moves meet R factors / central blocks of
+      tiny or huge norm that psi.factor does not know about; (b) ~35% (programs 25%) of the option dictionaries carry
+      the SVD-driver keys of svd_with_truncation (policy fullrank/lowrank/block_arnoldi/block_propack, k_block, fix_signs,
+      svd_on_cpu, thresh, verbosity) next to the truncation limits: they are valid option sets and must not change what is
+      kept or reported; (c) entropies are compared for two random Renyi orders per case (0.05…0.95, 1.05…4, 0.5, 3, 5)
+      besides alpha = 1, 2, against the documented definition incl. its cutoff (probabilities < 1e-12 dropped);
  (iii) the per-cut weights returned by `diagonalize_central_` are re-folded by the Lean model over exact rationals
       (`accumulate`, theorem `accumulate_eq`) and compared with the returned total.
 """
@@ -134,6 +141,9 @@ def build_state(spec):
     else:
         raise ValueError(kind)
     psi = spec["scale"] * psi
+    # amplitudes of very different magnitude stored in the SITE TENSORS (psi.factor does not know about them)
+    for n, x in spec.get("site_scales", []):
+        psi[n] = x * psi[n]
     return ops, psi
 
 
@@ -177,10 +187,37 @@ def gen_state_spec(rng, quick, dense=True, nr_phys=None, Nmax=None, pert=0.08):
     amps = [1.0 if equal else rng.choice([0.5, -1.0, 2.0, 0.25, -0.75]) for _ in range(4)]
     if kind in ("dup", "sum"):
         amps[0] = rng.choice([1.0, 0.5, -0.25, 2.0])
-    return {"fam": fam, "sym": sym, "N": N, "nr_phys": nr, "kind": kind, "seed": rng.randrange(1 << 30),
+    spec = {"fam": fam, "sym": sym, "N": N, "nr_phys": nr, "kind": kind, "seed": rng.randrange(1 << 30),
             "D": rng.choice([1, 2, 3, 4, 6, 8]), "dtype": "complex128" if rng.random() < 0.25 else "float64",
             "patterns": pats, "amps": amps, "scale": rng.choice([1.0, 1.0, 1.7, 0.5, -2.0, 3.25]),
             "D2": rng.choice([1, 2, 3]), "eps": float("%.3e" % 10 ** (-rng.uniform(2.0, 9.5)))}
+    spec["site_scales"] = gen_site_scales(rng, spec)
+    return spec
+
+
+def gen_site_scales(rng, spec, p=0.22):
+    """The property quantifies over ALL MPS/MPO: also those whose site tensors carry amplitudes of very different
+    magnitude (un-normalised weights, a small coupling multiplied into one tensor, ...).  One site tensor is scaled by
+    x = 1e-2 … 1e-20 (sometimes by 1/x); mostly the total norm is kept O(1) by putting 1/x into another site tensor or into
+    the overall number (-> psi.factor), so that every oracle (all of them relative to the norm of the state) stays active.
+    All magnitudes are far from under/overflow.  Changes spec['scale'] in place; returns [[site, x], ...]."""
+    if rng.random() >= p:
+        return []
+    N = spec["N"]
+    x = float("%.3e" % 10 ** (-rng.uniform(2.0, 20.0)))
+    if rng.random() < 0.2:
+        x = 1.0 / x
+    n = rng.randrange(N)
+    out = [[n, x]]
+    how = rng.choice(["site", "site", "factor", "factor", "none"])
+    if how == "site" and N >= 2:
+        out.append([rng.choice([m for m in range(N) if m != n]), 1.0 / x])
+    elif how != "none":
+        spec["scale"] = spec["scale"] / x
+    elif not 1e-4 <= x <= 1e4:      # uncompensated: only moderate magnitudes (absolute guards of the references)
+        x = float("%.3e" % 10 ** (-rng.uniform(2.0, 4.0)))
+        out = [[n, x]]
+    return out
 
 
 # =====================================================================================================
@@ -259,6 +296,30 @@ def ref_entropy(p, alpha):
     if alpha == 1:
         return float(-np.sum(p * np.log2(p)))
     return float(np.log2(np.sum(p ** alpha)) / (1 - alpha))
+
+
+ENT_CUTOFF = 1e-12           # documented default of yastn.entropy: "Discard all probabilities smaller than tol"
+
+
+def ref_renyi_cutoff(p, alpha):
+    """Renyi entropy of a general order alpha > 0, alpha != 1, following the DOCUMENTED definition of yastn.entropy:
+    probabilities normalised to sum 1, those below tol=1e-12 dropped (for alpha < 1 tiny probabilities are not
+    negligible: p^alpha >> p, so the reference has to use the same cutoff).  Returns None when some probability is
+    within a factor 10 of the cutoff (which side it falls on is decided by round-off: not evaluated)."""
+    p = p / p.sum()
+    if np.any((p > ENT_CUTOFF / 10) & (p < ENT_CUTOFF * 10)):
+        return None
+    p = p[p > ENT_CUTOFF]
+    return float(np.log2(np.sum(p ** alpha)) / (1 - alpha))
+
+
+def gen_alphas(rng):
+    """orders of the Renyi entropy: the property says "entropies", get_entropy documents every alpha > 0"""
+    out = []
+    for _ in range(2):
+        a = round(rng.choice([rng.uniform(0.05, 0.95), rng.uniform(0.05, 0.95), rng.uniform(1.05, 4.0), rng.choice([3, 5, 0.5])]), 3)
+        out.append(a)
+    return out
 
 
 # =====================================================================================================
@@ -407,6 +468,8 @@ def observables_check(ctx, psi, ops, case, where, v=None):
         return
     ent1 = psi.get_entropy()
     ent2 = psi.get_entropy(alpha=2)
+    alphas = [a for a in case.get("alphas", []) if a > 0 and abs(a - 1) >= 0.04]
+    ent_a = [psi.get_entropy(alpha=a) for a in alphas]
     bd = psi.get_bond_dimensions() if psi.pC is None else None
     for k in range(N + 1):
         ref = dense_svals(v, N, nr, k) / nv
@@ -424,6 +487,17 @@ def observables_check(ctx, psi, ops, case, where, v=None):
             _obs("entropy", max(abs(float(ent[k]) - e_ref) - slack, 0.0))
             if abs(float(ent[k]) - e_ref) > 1e-8 + slack:
                 ctx.fail("oracle", "c08:entropy", f"{where}: entropy(alpha={alpha}) across cut {k} is {float(ent[k])!r}, dense {e_ref!r}", **key0)
+        for alpha, ent in zip(alphas, ent_a):
+            e_ref = ref_renyi_cutoff(ref ** 2, alpha)
+            if e_ref is None:
+                ctx.count("entropy:alpha-skipped-near-cutoff")
+                continue
+            ctx.count("entropy:alpha<1" if alpha < 1 else "entropy:alpha>1")
+            ctx.count("entropy:spectrum-flat" if np.sum(ref > 1e-6) < 2 or np.ptp(ref[ref > 1e-6]) < 1e-9 else "entropy:spectrum-nonflat")
+            _obs("entropy-renyi", abs(float(ent[k]) - e_ref))
+            if abs(float(ent[k]) - e_ref) > 1e-8:
+                ctx.fail("oracle", "c08:entropy", f"{where}: Renyi entropy of order alpha={alpha} across cut {k} is {float(ent[k])!r}, from the "
+                         f"dense Schmidt values (documented cutoff 1e-12) {e_ref!r}", **key0)
         if bd is not None:
             rank = int(np.sum(ref > 1e-9))
             if bd[k] < rank:
@@ -631,6 +705,32 @@ BINDING = [{"D_total": 1}, {"D_total": 2}, {"D_total": 3}, {"tol": 0.3}, {"tol":
            {"D_block": {"@t": [[t, 2] for t in _TS]}, "tol_block": {"@t": [[t, 0.1] for t in _TS[1::2]]}}]
 
 
+TRUNC_KEYS = {"D_total", "tol", "D_block", "tol_block"}     # the keys truncation_mask acts on (of those generated here)
+
+
+def decorate_opts(rng, o, p=0.35):
+    """truncate_ documents opts_svd as "options passed to svd_with_truncation": besides the truncation limits such a
+    dictionary may carry the keys that select and tune the SVD driver (the same dictionary is shared with zipper,
+    compression_, dmrg_, tdvp_).  They are valid members of "all truncation option sets" and must not change what is kept
+    or which discarded weight is reported."""
+    if o is None or rng.random() >= p:
+        return o
+    o = dict(o)
+    if rng.random() < 0.8:
+        o["policy"] = rng.choice(["fullrank", "lowrank", "lowrank", "block_arnoldi", "block_propack"])
+    if rng.random() < 0.25:
+        o["k_block"] = rng.choice([1, 2, 3, 8])
+    if rng.random() < 0.25:
+        o["fix_signs"] = rng.random() < 0.7
+    if rng.random() < 0.15:
+        o["svd_on_cpu"] = rng.random() < 0.5
+    if rng.random() < 0.15:
+        o["thresh"] = rng.choice([0.0, 0.1, 1.0])
+    if rng.random() < 0.1:
+        o["verbosity"] = rng.choice([0, 1])
+    return o
+
+
 def gen_program(rng, quick, dense):
     """a program of public method calls; mostly legal (tracks the centre itself), some illegal"""
     st = gen_state_spec(rng, quick, dense=dense)
@@ -663,7 +763,7 @@ def gen_program(rng, quick, dense):
                 centre = (n - 1, n) if to == "first" else (n, n + 1)
         elif k == "diag":
             o = rng.choice(NONBINDING) if (not allow_destructive or rng.random() < 0.6) else rng.choice(BINDING)
-            calls.append(["diag", o, nm])
+            calls.append(["diag", decorate_opts(rng, o, 0.25), nm])
         elif k == "absorb":
             calls.append(["absorb", rng.choice(dirs + (["middle"] if rng.random() < 0.1 else []))])
             centre = None
@@ -677,7 +777,7 @@ def gen_program(rng, quick, dense):
             o = rng.choice(NONBINDING) if (not allow_destructive or rng.random() < 0.6) else rng.choice(BINDING)
             if rng.random() < 0.07:
                 o = None
-            calls.append(["truncate", rng.choice(dirs), o, nm])
+            calls.append(["truncate", rng.choice(dirs), decorate_opts(rng, o, 0.25), nm])
         else:  # illegal direction
             which = rng.choice(["orth", "canonize", "truncate", "absorb"])
             if which == "orth":
@@ -692,7 +792,7 @@ def gen_program(rng, quick, dense):
                 centre = None
     case = {"mode": "program", "state": st, "calls": calls, "dense": dense,
             "observe_at": rng.choice([-1] + list(range(len(calls)))) if dense and rng.random() < 0.8 else None,
-            "final_absorb": rng.choice(dirs)}
+            "final_absorb": rng.choice(dirs), "alphas": gen_alphas(rng)}
     return case
 
 
@@ -704,6 +804,10 @@ PERT_D = [1, 2, 3, 4]
 
 
 def gen_opts(rng, st):
+    return decorate_opts(rng, gen_limits(rng, st))
+
+
+def gen_limits(rng, st):
     """truncation options that can bind on the state `st` (for kind 'pert': mostly limits that separate the
     O(1) Schmidt values of a from the O(eps) ones of eps*b, so that the discarded weight is small but non-zero)"""
     if st["kind"] == "pert" and rng.random() < 0.85:
@@ -747,7 +851,7 @@ def gen_bond_case(rng, quick):
     return {"mode": "bond", "state": st, "to": to, "site": site, "opts": gen_opts(rng, st),
             "prep_normalize": rng.random() < 0.3, "sweep_normalize": rng.random() < 0.5,
             "orth_normalize": nm if rng.random() < 0.7 else not nm, "normalize": nm,
-            "absorb": rng.choice(["first", "last", "last", None]), "observe": rng.random() < 0.3}
+            "absorb": rng.choice(["first", "last", "last", None]), "observe": rng.random() < 0.3, "alphas": gen_alphas(rng)}
 
 
 def frac_of_float(x):
@@ -823,7 +927,7 @@ def check_cut(ctx, case, cdat, opts, nm, N, nr, where, v_final=None):
     s_post = dense_svals(proj, N, nr, cut) / npre
     mkept = int(np.sum(s_post > 1e-9))
     ref_d = float(np.sqrt(max(0.0, 1 - np.sum(s_post[:mkept] ** 2))))
-    simple = set(opts) <= {"D_total", "tol"}
+    simple = (set(opts) & TRUNC_KEYS) <= {"D_total", "tol"} and not opts.get("truncate_multiplets")
     kept = cdat["kept"]
     if cdat["stored"] is not None:
         # the block left between the sites holds the (normalised) Schmidt values of the truncated state
@@ -1153,6 +1257,26 @@ def model_traces(ctx, cases):
     return out
 
 
+def count_case(ctx, case):
+    st = case["state"]
+    ctx.count(f"N={st['N']}")
+    ctx.count(f"sym={st['sym']}")
+    ctx.count(f"kind={st['kind']}")
+    ctx.count("mpo" if st["nr_phys"] == 2 else "mps")
+    ss = st.get("site_scales") or []
+    if ss:
+        e = abs(math.log10(ss[0][1]))
+        ctx.count("site-tensor-scale:" + ("1e+-2..8" if e < 8 else "1e+-8..14" if e < 14 else "1e+-14..20")
+                  + (":compensated" if len(ss) > 1 or not 1e-3 < abs(st["scale"]) < 1e3 else ""))
+    else:
+        ctx.count("site-tensor-scale:none")
+    all_opts = [case["opts"]] if "opts" in case else [c[1] if c[0] == "diag" else c[2] for c in case.get("calls", []) if c[0] in ("diag", "truncate")]
+    for o in all_opts:
+        if o is not None:
+            ctx.count("opts:policy=" + str(o.get("policy", "absent")))
+            ctx.count("opts:other-driver-keys" if set(o) & {"k_block", "fix_signs", "svd_on_cpu", "thresh", "verbosity"} else "opts:no-other-driver-keys")
+
+
 def run(ctx):
     rng = ctx.rng
     quick = ctx.quick
@@ -1164,7 +1288,10 @@ def run(ctx):
                 "truncation states are a/|a|+eps·b/|b| (eps 1e-9.5..1e-2, D_a 1..4, D_b 1..3) cut back to D_a or by a tol between eps and 1 "
                 "(small but resolved discarded weight); non-trivial = some cut discards weight. single-bond cases: same states, canonical "
                 "form opposite to `to`, QR steps (normalize random) to a random site, orthogonalize_site_ -> diagonalize_central_(opts) -> "
-                "absorb_central_(first/last/none) with independent normalize flags; non-trivial = the cut discards weight")
+                "absorb_central_(first/last/none) with independent normalize flags; non-trivial = the cut discards weight. All states: 22% with "
+                "one site tensor scaled by 1e-2..1e-20 or its inverse (compensated in another site tensor / the overall factor in ~80%); option "
+                "dictionaries: 35% (programs 25%) also carry SVD-driver keys (policy, k_block, fix_signs, svd_on_cpu, thresh, verbosity); "
+                "observables: entropies of orders 1, 2 and two random Renyi orders in (0.05,0.95)∪(1.05,4)∪{0.5,3,5}")
     budget = 40 if quick else 600
     t0 = time.time()
     OBSERVED.clear()
@@ -1186,10 +1313,7 @@ def run(ctx):
         _guarded(ctx, run_program, case, m)
         st = case["state"]
         ctx.case({"state": st, "calls": case["calls"]}, nontrivial=len(case["calls"]) > 0)
-        ctx.count(f"N={st['N']}")
-        ctx.count(f"sym={st['sym']}")
-        ctx.count(f"kind={st['kind']}")
-        ctx.count("mpo" if st["nr_phys"] == 2 else "mps")
+        count_case(ctx, case)
         ctx.count("program:dense" if case["dense"] else "program:trace-only")
     # --- (ii)/(iii) truncation
     queue = []
@@ -1202,10 +1326,7 @@ def run(ctx):
         _guarded(ctx, run_truncate, case, queue)
         ctx.case(case, nontrivial=ctx.stats.get("truncate:binding_runs", 0) > before)
         st = case["state"]
-        ctx.count(f"N={st['N']}")
-        ctx.count(f"sym={st['sym']}")
-        ctx.count(f"kind={st['kind']}")
-        ctx.count("mpo" if st["nr_phys"] == 2 else "mps")
+        count_case(ctx, case)
     flush_refolds(ctx, queue)
     # --- (ii) stand-alone single-bond truncation
     for _ in range(n_bond):
@@ -1217,10 +1338,7 @@ def run(ctx):
         _guarded(ctx, run_bond, case)
         ctx.case(case, nontrivial=ctx.stats.get("bond:binding", 0) > before)
         st = case["state"]
-        ctx.count(f"N={st['N']}")
-        ctx.count(f"sym={st['sym']}")
-        ctx.count(f"kind={st['kind']}")
-        ctx.count("mpo" if st["nr_phys"] == 2 else "mps")
+        count_case(ctx, case)
     ctx.extra["largest_observed_deviation"] = dict(OBSERVED)
     ctx.extra["tolerances"] = {"dense": TOL, "discarded-weight(abs)": TOL_W, "sqrt(1-d^2)-derived": TOL_D, "fold": TOL_FOLD, "entropy": 1e-8}
     ctx.assumptions += [
